@@ -296,3 +296,130 @@ print("OK")
     if p.returncode != 0 or "OK" not in p.stdout:
         raise MachineryError("cannot produce stored extractions:\n" + p.stderr[-1500:])
     return {tag: outdir / f"stored-{tag}.json" for tag in STORED}
+
+
+# --------------------------------------------------------------------------- round 4: state that outlives a parser
+SLOPPY_BODY = ("<h1>Sloppy {tag}</h1><p>before</p>"
+               "<table><td>cell-{tag}-1</td><td>cell-{tag}-2</td></table>"          # td without tr
+               "<tr><td>row-without-table-{tag}</td></tr>"                         # tr without table
+               "<li>item-without-list-{tag}</li>"                                  # li without ul
+               "<p>after <b>unclosed bold <i>and italics"                          # unclosed at end of input
+               "<table><tr><td>open-cell-{tag}")                                   # unclosed table / row / cell
+CLEAN_BODY = "<h1>Clean {tag}</h1><p>first paragraph {tag}</p><ul><li>one</li><li>two</li></ul><p>last {tag}</p>"
+
+
+def make_epub(chapters) -> bytes:
+    """minimal EPUB 2: mimetype, container.xml, content.opf (manifest + spine), one XHTML file per chapter body"""
+    import io
+    import zipfile
+    buf = io.BytesIO()
+    with zipfile.ZipFile(buf, "w") as z:
+        def w(name, data, ct=zipfile.ZIP_DEFLATED):
+            zi = zipfile.ZipInfo(name, date_time=(2020, 1, 1, 0, 0, 0))
+            z.writestr(zi, data, compress_type=ct)
+        w("mimetype", "application/epub+zip", zipfile.ZIP_STORED)
+        w("META-INF/container.xml", '<?xml version="1.0"?><container version="1.0" '
+          'xmlns="urn:oasis:names:tc:opendocument:xmlns:container"><rootfiles><rootfile '
+          'full-path="OEBPS/content.opf" media-type="application/oebps-package+xml"/></rootfiles></container>')
+        items = "".join(f'<item id="c{i}" href="c{i}.xhtml" media-type="application/xhtml+xml"/>'
+                        for i in range(len(chapters)))
+        refs = "".join(f'<itemref idref="c{i}"/>' for i in range(len(chapters)))
+        w("OEBPS/content.opf", '<?xml version="1.0"?><package xmlns="http://www.idpf.org/2007/opf" version="2.0" '
+          'unique-identifier="id"><metadata xmlns:dc="http://purl.org/dc/elements/1.1/"><dc:title>C15 book</dc:title>'
+          '<dc:identifier id="id">c15</dc:identifier><dc:language>en</dc:language></metadata>'
+          f'<manifest>{items}</manifest><spine>{refs}</spine></package>')
+        for i, body in enumerate(chapters):
+            w(f"OEBPS/c{i}.xhtml", '<?xml version="1.0"?><html xmlns="http://www.w3.org/1999/xhtml"><head>'
+              f'<title>Chapter {i}</title></head><body>{body}</body></html>')
+    return buf.getvalue()
+
+
+def make_mhtml(body: str) -> bytes:
+    return ("From: <Saved by C15>\r\nSubject: c15\r\nMIME-Version: 1.0\r\n"
+            'Content-Type: multipart/related; type="text/html"; boundary="----c15b"\r\n\r\n'
+            "------c15b\r\nContent-Type: text/html; charset=\"utf-8\"\r\nContent-Transfer-Encoding: 8bit\r\n"
+            "Content-Location: http://example.invalid/page.html\r\n\r\n"
+            f"<html><head><title>c15</title></head><body>{body}</body></html>\r\n------c15b--\r\n").encode()
+
+
+def markup_docs() -> dict:
+    """sloppy markup that reaches rarely initialised parser state, and clean counterparts (no table rows)"""
+    out = {}
+    for kind in ("sloppy", "clean"):
+        body = SLOPPY_BODY if kind == "sloppy" else CLEAN_BODY
+        out[f"{kind}.html"] = ("<html><head><title>c15</title></head><body>" + body.format(tag="html")
+                                + ("</body></html>" if kind == "clean" else "")).encode()
+        out[f"{kind}.mhtml"] = make_mhtml(body.format(tag="mhtml"))
+        out[f"{kind}.epub"] = make_epub([body.format(tag="epub1"), CLEAN_BODY.format(tag="epub2")])
+    return out
+
+
+def repacked_variants(res_root: Path) -> dict:
+    """a second, different document of each zip-based format with pictures that shares every part NAME with a
+    fixture (same package paths, e.g. Pictures/<hash>.png): the fixture re-zipped with one extra member"""
+    import io
+    import zipfile
+    src = {"odt": "open_office/image_extraction.odt", "odp": "open_office/image_extraction.odp",
+           "ods": "open_office/image_extraction.ods", "docx": "modern_ms/sample_with_comment_and_table.docx",
+           "pptx": "modern_ms/pptx_formula_image.pptx", "xlsx": "modern_ms/image_in_excel.xlsx",
+           "epub": "epub/sample.epub"}
+    out = {}
+    for ext, rel in sorted(src.items()):
+        p = res_root / rel
+        if not p.exists():
+            raise MachineryError(f"fixture vanished: {rel}")
+        buf = io.BytesIO()
+        with zipfile.ZipFile(p) as zin, zipfile.ZipFile(buf, "w") as zout:
+            for zi in zin.infolist():
+                zout.writestr(zi, zin.read(zi.filename), compress_type=zi.compress_type)
+            zout.writestr(zipfile.ZipInfo("c15-extra/readme.bin", date_time=(2020, 1, 1, 0, 0, 0)), b"c15 variant")
+        out[f"variant-of-{p.stem}.{ext}"] = buf.getvalue()
+    return out
+
+
+def make_7z_encrypted_header() -> bytes:
+    """7z whose END header is an EncodedHeader with a 7zAES coder (7z a -mhe=on): only flagged, the packed
+    bytes are noise - a reader must refuse it as encrypted without reading a file list"""
+    import zlib
+    packed = bytes((i * 37 + 11) & 0xFF for i in range(48))
+    h = bytearray(b"\x17")                                        # kEncodedHeader
+    h += b"\x06" + _7z_num(0) + _7z_num(1) + b"\x09" + _7z_num(len(packed)) + b"\x00"     # PackInfo
+    h += b"\x07\x0b" + _7z_num(1) + b"\x00"                       # UnpackInfo, 1 folder
+    props = b"\x53\x07" + b"\x00" * 8 + b"\x00" * 8               # numCyclesPower etc. (not interpreted)
+    h += _7z_num(1) + bytes([0x24]) + b"\x06\xf1\x07\x01" + _7z_num(len(props)) + props   # coder 7zAES, has props
+    h += b"\x0c" + _7z_num(40) + b"\x00"                          # unpack size, end UnpackInfo
+    h += b"\x00"                                                  # end streams info
+    start = struct.pack("<QQI", len(packed), len(h), zlib.crc32(bytes(h)) & 0xFFFFFFFF)
+    return b"7z\xbc\xaf\x27\x1c\x00\x04" + struct.pack("<I", zlib.crc32(start) & 0xFFFFFFFF) + start + packed + bytes(h)
+
+
+def make_aes_image_pdfs(outdir: Path, res_root: Path) -> dict:
+    """two different AES-128 PDFs (different documents, different owner passwords -> different keys) whose page
+    has image XObjects (streams that are decrypted outside page.extract_text)"""
+    code = r"""
+import sys, logging
+logging.disable(logging.CRITICAL)
+from sharepoint2text.parsing.extractors.pdf._pypdf_aes_fallback import patch_pypdf_fallback_aes
+from pypdf import PdfReader, PdfWriter
+import pypdf._crypt_providers as providers
+if providers.crypt_provider[0] != "local_crypt_fallback":
+    print("NOFALLBACK"); sys.exit(0)
+assert patch_pypdf_fallback_aes()
+out = sys.argv[1]
+for i, src in enumerate(sys.argv[2:], 1):
+    w = PdfWriter(); w.add_page(PdfReader(src).pages[0])
+    w.encrypt(user_password="", owner_password=f"owner-{i}", algorithm="AES-128")
+    with open(f"{out}/aesimg{i}.pdf", "wb") as f: w.write(f)
+print("OK")
+"""
+    srcs = [res_root / "pdf" / "multi_image.pdf", res_root / "pdf" / "vendor-creation-form-english-version.pdf"]
+    for s_ in srcs:
+        if not s_.exists():
+            raise MachineryError(f"fixture vanished: {s_}")
+    outdir.mkdir(parents=True, exist_ok=True)
+    p = subprocess.run([PY, "-c", code, str(outdir), *map(str, srcs)], env=child_env(), capture_output=True, text=True)
+    if p.returncode != 0:
+        raise MachineryError("cannot write AES image PDFs:\n" + p.stderr[-1500:])
+    if "NOFALLBACK" in p.stdout:
+        return {}
+    return {f"aesimg{i}": outdir / f"aesimg{i}.pdf" for i in (1, 2)}
